@@ -49,6 +49,12 @@ func init() {
 	mutant(&Mutant{Name: "c09-bigint-through-number", Property: "C09", File: "js/util.go",
 		Old: "\tb, suffix = removeUnderscoresAndSuffix(b)\n\tif suffix {\n\t\treturn append(b, 'n')\n\t}\n\treturn minify.Number(b, prec)", New: "\tb, suffix = removeUnderscoresAndSuffix(b)\n\tb = minify.Number(b, prec)\n\tif suffix {\n\t\treturn append(b, 'n')\n\t}\n\treturn b",
 		Rule: "R09.3", Construct: "decimalNumber"})
+	mutant(&Mutant{Name: "c04-layer-offset-as-index", Property: "C04", File: "css/css.go",
+		Old: "for _, i := range []int{end - 1, start + 1} {", New: "for _, i := range []int{end - start - 1, start + 1} {",
+		Rule: "R04.5", Construct: "indices are positions"})
+	mutant(&Mutant{Name: "c04-offset-buffer-shared", Property: "C04", File: "css/css.go",
+		Old: "b = strconv.AppendInt(make([]byte, 0, 4), 100-n, 10)", New: "b = strconv.AppendInt(b[:0], 100-n, 10)",
+		Rule: "R04.6", Construct: "b stored by"})
 	mutant(&Mutant{Name: "c04-custom-property-collapsed", Property: "C04", File: "css/css.go",
 		Old: "\t\t\tvalue := parse.TrimWhitespace(c.p.Values()[0].Data)\n", New: "\t\t\tvalue := parse.TrimWhitespace(parse.ReplaceMultipleWhitespace(c.p.Values()[0].Data))\n",
 		Rule: "R04.4", Construct: "confined to comment text"})
@@ -128,6 +134,32 @@ func runC04(c *Ctx) {
 		})
 	}
 	c.R.Floor(r4, "white-space collapsing calls", n, 1)
+	c.distanceAsIndex("R04.5", []string{"css"})
+	c.scratchAliasing("R04.6", libPkgs)
+	// R04.7
+	const r7 = "R04.7"
+	c.R.Rule(r7, "parse/v2/strconv.ParseInt reads the integer *prefix* of its argument and reports how many bytes it used. In package css every call binds that count to a variable (not `_`): a value rewritten from a partially read number (`right 10.5%` read as 10) is a different value")
+	n7 := 0
+	for _, fd := range load.FuncDecls(pk) {
+		if fd.Body == nil {
+			continue
+		}
+		ast.Inspect(fd.Body, func(x ast.Node) bool {
+			as, ok := x.(*ast.AssignStmt)
+			if !ok || len(as.Rhs) != 1 || len(as.Lhs) != 2 {
+				return true
+			}
+			call, isCall := ast.Unparen(as.Rhs[0]).(*ast.CallExpr)
+			if !isCall || calleeName(info, call) != load.ParseMod+"/strconv.ParseInt" {
+				return true
+			}
+			n7++
+			id, isId := as.Lhs[1].(*ast.Ident)
+			c.R.Check(isId && id.Name != "_", r7, fmt.Sprintf("css.%s/ParseInt(%s) consumed length is used", load.FuncName(fd), str(call.Args[0])), c.pos(call), "bound to a variable", "the number of bytes ParseInt consumed is discarded: a fractional percentage is silently truncated (`right 10.5% top` → `90% 0` instead of `89.5% 0`)")
+			return true
+		})
+	}
+	c.R.Floor(r7, "ParseInt calls", n7, 1)
 }
 
 func runC04own(c *Ctx) {
